@@ -2,6 +2,18 @@ use super::{Params, Row, Value, evaluate_expression_value};
 use crate::ast::{Expression, FunctionCall, ListComprehension};
 use nervusdb_api::GraphSnapshot;
 
+/// Expression evaluation yields plain values, so a loop over a long list cannot return the
+/// timeout error itself: it records the error for the enclosing operator and stops.
+fn loop_must_stop(params: &Params, iteration: usize, stage: &str) -> bool {
+    if iteration % 1024 != 1023 {
+        return false;
+    }
+    if let Err(err) = params.check_timeout(stage) {
+        params.defer_error(err);
+    }
+    params.has_deferred_error()
+}
+
 pub(super) fn evaluate_list_comprehension<S: GraphSnapshot>(
     comp: &ListComprehension,
     row: &Row,
@@ -20,7 +32,10 @@ pub(super) fn evaluate_list_comprehension<S: GraphSnapshot>(
     };
 
     let mut out = Vec::new();
-    for item in items {
+    for (i, item) in items.into_iter().enumerate() {
+        if loop_must_stop(params, i, "ListComprehension") {
+            return Value::Null;
+        }
         let local_row = row.clone().with(var_name.clone(), item.clone());
         let predicate_pass = match predicate {
             None => true,
@@ -74,7 +89,10 @@ pub(super) fn evaluate_quantifier<S: GraphSnapshot>(
     match call.name.as_str() {
         "__quant_any" => {
             let mut saw_null = false;
-            for item in items {
+            for (i, item) in items.into_iter().enumerate() {
+                if loop_must_stop(params, i, "Quantifier") {
+                    return Value::Null;
+                }
                 match eval_pred(item) {
                     Value::Bool(true) => return Value::Bool(true),
                     Value::Bool(false) => {}
@@ -90,7 +108,10 @@ pub(super) fn evaluate_quantifier<S: GraphSnapshot>(
         }
         "__quant_all" => {
             let mut saw_null = false;
-            for item in items {
+            for (i, item) in items.into_iter().enumerate() {
+                if loop_must_stop(params, i, "Quantifier") {
+                    return Value::Null;
+                }
                 match eval_pred(item) {
                     Value::Bool(true) => {}
                     Value::Bool(false) => return Value::Bool(false),
@@ -106,7 +127,10 @@ pub(super) fn evaluate_quantifier<S: GraphSnapshot>(
         }
         "__quant_none" => {
             let mut saw_null = false;
-            for item in items {
+            for (i, item) in items.into_iter().enumerate() {
+                if loop_must_stop(params, i, "Quantifier") {
+                    return Value::Null;
+                }
                 match eval_pred(item) {
                     Value::Bool(true) => return Value::Bool(false),
                     Value::Bool(false) => {}
@@ -123,7 +147,10 @@ pub(super) fn evaluate_quantifier<S: GraphSnapshot>(
         "__quant_single" => {
             let mut match_count = 0usize;
             let mut saw_null = false;
-            for item in items {
+            for (i, item) in items.into_iter().enumerate() {
+                if loop_must_stop(params, i, "Quantifier") {
+                    return Value::Null;
+                }
                 match eval_pred(item) {
                     Value::Bool(true) => {
                         match_count += 1;
@@ -177,7 +204,10 @@ pub(super) fn evaluate_reduce<S: GraphSnapshot>(
         _ => return Value::Null,
     };
 
-    for item in items {
+    for (i, item) in items.into_iter().enumerate() {
+        if loop_must_stop(params, i, "Reduce") {
+            return Value::Null;
+        }
         let local_row = row
             .clone()
             .with(acc_name.clone(), acc.clone())
